@@ -241,6 +241,7 @@ class Interp:
         self.own_members = {}         # class name -> members defined in the class itself
         self.class_bases = {}         # class name -> names of its base classes
         self._cls_stack = []
+        self.dataclasses = {}         # class name -> [(field, default expression or None)] of @dataclass classes
         self.module = None            # ast.Module of the analysed code: its top-level constants and functions resolve free names
         self.src = None               # SourceSet: lets `from mindsdb_sql.x import f` in that module resolve to f's source
         self.steps = 0
@@ -273,13 +274,15 @@ class Interp:
         key = (id(src), relpath, tuple(also))
         cached = _FOR_FILE_CACHE.get(key)
         if cached is None:
-            ms, bases, fnmod, own0 = {}, {}, {}, {}
+            ms, bases, fnmod, own0, dcs = {}, {}, {}, {}, {}
             for f in tuple(also) + (relpath,):
                 t = src.tree(f)
                 for st in t.body:
                     if isinstance(st, ast.ClassDef):
                         ms[st.name] = class_members(st)
                         own0[st.name] = class_members(st)
+                        if any(norm(d_).split('(')[0].split('.')[-1] == 'dataclass' for d_ in st.decorator_list):
+                            dcs[st.name] = [(m_.target.id, m_.value) for m_ in st.body if isinstance(m_, ast.AnnAssign) and isinstance(m_.target, ast.Name)]
                         bases[st.name] = [b.id if isinstance(b, ast.Name) else b.attr for b in st.bases if isinstance(b, (ast.Name, ast.Attribute))]
                 for n in ast.walk(t):
                     if isinstance(n, ast.FunctionDef):
@@ -301,13 +304,14 @@ class Interp:
                     todo.extend(bases.get(b, []))
             own = {k: dict(v) for k, v in own0.items()}
             fncls = {id(v): k for k, d in own.items() for v in d.values() if isinstance(v, ast.FunctionDef)}
-            cached = _FOR_FILE_CACHE[key] = (ms, fnmod, src, own, bases, fncls)       # src is kept alive so that id(src) stays unique
+            cached = _FOR_FILE_CACHE[key] = (ms, fnmod, src, own, bases, fncls, dcs)       # src is kept alive so that id(src) stays unique
         ms = dict(cached[0])
         ms.update(methods or {})
         it = cls(isa or {}, stubs or {}, methods=ms, **kw)
         it.module, it.src = src.tree(relpath), src
         it.fn_module = dict(cached[1])
         it.own_members, it.class_bases, it.fn_class = cached[3], cached[4], dict(cached[5])
+        it.dataclasses = cached[6]
         return it
 
     def call_function(self, fn, args, kwargs, outer_env, _as_generator_body=False):
@@ -935,6 +939,34 @@ class Interp:
             self.trace.append((f.name, args, kwargs))
             o = Obj(f.name.split('.')[-1], **kwargs)
             o.attrs['_args'] = args
+            return o
+        if isinstance(e.func, ast.Name) and e.func.id in self.dataclasses and '__init__' not in self.methods.get(e.func.id, {}):
+            # the generated constructor of a @dataclass: fields in declaration order
+            fields = self.dataclasses[e.func.id]
+            if len(args) > len(fields) or any(k not in [f for f, _ in fields] for k in kwargs):
+                raise Raised('TypeError', e)
+            o = Obj(e.func.id)
+            for i, (f_, dflt) in enumerate(fields):
+                if i < len(args):
+                    if f_ in kwargs:
+                        raise Raised('TypeError', e)
+                    o.attrs[f_] = args[i]
+                elif f_ in kwargs:
+                    o.attrs[f_] = kwargs[f_]
+                elif dflt is None:
+                    raise Raised('TypeError', e)
+                elif isinstance(dflt, ast.Call) and norm(dflt.func).split('.')[-1] == 'field':
+                    fac = next((k.value for k in dflt.keywords if k.arg == 'default_factory'), None)
+                    dv = next((k.value for k in dflt.keywords if k.arg == 'default'), None)
+                    if fac is not None and norm(fac) in ('list', 'dict', 'set'):
+                        o.attrs[f_] = {'list': list, 'dict': dict, 'set': set}[norm(fac)]()
+                    elif dv is not None:
+                        o.attrs[f_] = self._ev_in_module(dv)
+                    else:
+                        raise AnalysisError(f'interpreter: default of dataclass field {e.func.id}.{f_} is not modelled')
+                else:
+                    o.attrs[f_] = self._ev_in_module(dflt)
+            self.trace.append((e.func.id, args, kwargs))
             return o
         if isinstance(e.func, ast.Name) and e.func.id[:1].isupper() and isinstance(self.methods.get(e.func.id, {}).get('__init__'), ast.FunctionDef):
             # constructor of a class whose source is known: run its __init__ on an empty stand-in
